@@ -49,3 +49,16 @@ Theorem C11_whole_set_speed_run : forall (e : Env (F:=R)) times speeds fmax n x 
   ss_full_run n e times speeds fmax x = Ok x' ->
   cinv (snd x') /\ levels_agree (te_of (fst (fst x')), snd x').
 Proof. exact ss_full_run_levels. Qed.
+
+Theorem C11_whole_speed_limit_step : forall (e : Env (F:=R)) pts fmax (s s'' : SLState (F:=R)) (c c' : ConsistR),
+  sl_full_step e pts fmax (s, c) = Ok (s'', c') ->
+  exists p dt, tstep (te_of (sl_st s), c) (p, dt) = Ok (te_of (sl_st s''), c') /\
+               p = w_pwr_whl_out (ts_w (sl_st s'')) /\ dt = k_dt (ts_k (sl_st s)).
+Proof. exact sl_full_step_is_tstep. Qed.
+
+Theorem C11_whole_speed_limit_run : forall (e : Env (F:=R)) pts fmax n x x',
+  cinv (snd x) -> levels_agree (te_of (sl_st (fst x)), snd x) ->
+  (forall k y, (1 <= k <= n)%nat -> sl_full_run k e pts fmax x = Ok y -> limits_nonneg (snd y)) ->
+  sl_full_run n e pts fmax x = Ok x' ->
+  cinv (snd x') /\ levels_agree (te_of (sl_st (fst x')), snd x').
+Proof. exact sl_full_run_levels. Qed.
